@@ -281,4 +281,63 @@ Section CoreRun.
     unfold want, nonblank in Hwant. cbn [fst snd] in *. apply andb_prop in Hwant. destruct Hwant as [_ Hnb].
     destruct l; [discriminate|discriminate].
   Qed.
+
+  (** * sum() of a header: the total of the scanned lines' cells *)
+  Definition cell_num (l : line ustring) (i : nat) : Z := fst (neval blanks (rs0 mx (mkMx [] [] [])) l (NHdr i)).
+  Lemma neval_hdr s l i : fst (neval blanks s l (NHdr i)) = cell_num l i.
+  Proof. reflexivity. Qed.
+
+  Definition sum_once (nm : Z) (i : nat) (cs : list comp) : Prop :=
+    exists pre post, cs = pre ++ CAgg (Sum nm (NHdr i)) :: post /\
+      Forall (fun c => writes_var c <> Some nm) pre /\ Forall (fun c => writes_var c <> Some nm) post.
+
+  Lemma line_sum nm i cs e s l : sum_once nm i cs -> stopped mx s = false -> l <> [] ->
+    num_of (lookup nm (vars (x mx (fst (core_m q blanks AND cs e s l))))) = num_of (lookup nm (vars (x mx s))) + cell_num l i.
+  Proof.
+    intros (pre & post & Hcs & Hpre & Hpost) Hs Hl.
+    assert (Hb: (oeqb e (pln mx s) && is_nil l) = false) by (destruct l; [contradiction|apply andb_false_r]).
+    rewrite (core_line_vote q blanks AND cs e s l Hs Hb). cbn [fst]. cbv beta.
+    assert (He: num_of (lookup nm (vars (x mx (ensure cs s)))) = num_of (lookup nm (vars (x mx s))))
+      by (unfold ensure; destruct (frozen mx s); [reflexivity|cbn [x with_mx vars]; apply init_vars_num]).
+    rewrite Hcs at 1. rewrite seq_eval_app. cbn [seq_eval].
+    set (s1 := fst (seq_eval cst comp (ev l) AND pre (ensure cs s) (negb AND))).
+    assert (H1: lookup nm (vars (x mx s1)) = lookup nm (vars (x mx (ensure cs s)))) by (unfold s1; apply seq_eval_frame_var; exact Hpre).
+    pose proof (sum_step blanks AND s1 l nm (NHdr i)) as T. cbn zeta in T. destruct T as (T1 & _).
+    change (eval q blanks AND (CAgg (Sum nm (NHdr i))) s1 l) with (do_agg blanks AND s1 l (Sum nm (NHdr i))).
+    destruct (do_agg blanks AND s1 l (Sum nm (NHdr i))) as [s2 v] eqn:Ed. cbn [fst] in T1.
+    rewrite seq_eval_frame_var by exact Hpost. rewrite T1. cbn [num_of]. rewrite H1, He, neval_hdr. reflexivity.
+  Qed.
+
+  Definition total_of (i : nat) (lines : list (Z * line ustring)) : Z := fold_right (fun nl acc => cell_num (snd nl) i + acc) 0 lines.
+
+  Lemma fold_sum nm i cs e : sum_once nm i cs -> forall lines s, Forall (fun nl : Z * line ustring => snd nl <> []) lines ->
+    num_of (lookup nm (vars (x mx (fold_left (line_step ustring mx (core_m q blanks AND cs e)) lines s)))) =
+    num_of (lookup nm (vars (x mx s))) + total_of i lines.
+  Proof.
+    intros Ht. induction lines as [|[n l] lines IH]; intros s Hnb; [cbn; lia|].
+    inversion Hnb as [|nl0 r0 Hl Hr]; subst. cbn [snd] in Hl. cbn [fold_left].
+    rewrite (IH _ Hr).
+    assert (Hx: num_of (lookup nm (vars (x mx (line_step ustring mx (core_m q blanks AND cs e) s (n, l))))) = num_of (lookup nm (vars (x mx s))) + cell_num l i).
+    { unfold line_step. cbn [fst snd].
+      set (s1 := mkRs mx n (scan_count mx s + 1) (match_count mx s) (match_count mx s) 0 false false (x mx s)).
+      pose proof (line_sum nm i cs e s1 l Ht eq_refl Hl) as H. cbn [x] in H.
+      destruct (core_m q blanks AND cs e s1 l) as [s2 v]. cbn [fst] in H.
+      destruct v; [unfold raise_match_count_if; destruct (_ =? _); cbn [x]; exact H|exact H]. }
+    rewrite Hx. cbn [total_of fold_right snd]. fold (total_of i lines). lia.
+  Qed.
+
+  (** sum.nm(#i) once at top level, nothing else writing the variable: after ANY run it holds the total of cell i over the scanned lines *)
+  Theorem sum_totals_scanned sh (c : cfg) E cs (recs : list (line ustring)) x0 nm i :
+    wf sh -> parse false (ast_of sh) = Some (scanner c) -> q_scan c = false -> end_line c = Some E ->
+    end_of ustring recs = Some E -> will_run c = true -> sum_once nm i cs ->
+    num_of (lookup nm (vars (x mx (st ustring mx (run_from ustring mx (core_m q blanks AND cs (Some E)) c (rs0 mx x0) None recs))))) =
+    num_of (lookup nm (vars x0)) + total_of i (filter (want ustring sh) (number 0 recs)).
+  Proof.
+    intros Hwf Hp Hq He Hend Hw Ht.
+    pose proof (core_run_is_fold sh c E cs recs x0 Hwf Hp Hq He Hend Hw) as H. unfold core in H. injection H as Hx _ _.
+    rewrite Hx. rewrite (fold_sum nm i cs (Some E) Ht); [reflexivity|].
+    apply Forall_forall. intros [n l] Hin. apply filter_In in Hin. destruct Hin as [_ Hwant].
+    unfold want, nonblank in Hwant. cbn [fst snd] in *. apply andb_prop in Hwant. destruct Hwant as [_ Hnb].
+    destruct l; [discriminate|discriminate].
+  Qed.
 End CoreRun.
